@@ -248,10 +248,16 @@ def run(rep: Report, repo: Repo, tier: str) -> None:
     dict_var = next((n for n, (i, v) in names.items() if isinstance(v, ast.Call) and isinstance(v.func, ast.Attribute)
                      and v.func.attr == "get" and norm(v.func.value) == cfg_var), None)
     obj_var = next((n for n, (i, v) in names.items() if isinstance(v, ast.Call) and call_name(v) == "dict_to_settings"), None)
-    rep.check(dict_var is not None and obj_var is not None and norm(names[obj_var][1].args[0]) == dict_var, "C16-R6", where,
-              f"{obj_var} = dict_to_settings({dict_var})", "the settings object is not built from the validated dictionary")
-    if dict_var:
-        gcall = names[dict_var][1]
+    gcall = None
+    if obj_var is not None and names[obj_var][1].args:
+        a0 = names[obj_var][1].args[0]
+        if isinstance(a0, ast.Name) and a0.id == dict_var:
+            gcall = names[dict_var][1]
+        elif isinstance(a0, ast.Call) and isinstance(a0.func, ast.Attribute) and a0.func.attr == "get" and norm(a0.func.value) == cfg_var:
+            gcall = a0           # dict_to_settings(config.get(template)) without a name for the dictionary
+    rep.check(obj_var is not None and gcall is not None, "C16-R6", where,
+              f"{obj_var} = dict_to_settings({dict_var or '<validated dict>'})", "the settings object is not built from the validated dictionary")
+    if gcall is not None:
         rep.check(gcall.args and call_name(gcall.args[0]) == "config_template" if isinstance(gcall.args[0], ast.Call) else False,
                   "C16-R6", where, norm(gcall)[:70], "settings are read without the template: no type validation happens",
                   witness="recursive: 'yes please' in a -s file")
@@ -418,12 +424,11 @@ def rule_output_dir_resolution(rep: Report, repo: Repo, rule: str) -> None:
         if isinstance(st, ast.Assign) and "['relative_to_config']" in norm(st.value) and ".get(" in norm(st.value):
             flag_var = norm(st.targets[0])
     passed = False
-    for st in main.body:
-        if isinstance(st, ast.Assign) and isinstance(st.value, ast.Call) and isinstance(st.value.func, ast.Attribute) \
-                and st.value.func.attr == "get" and norm(st.value.func.value) == cfg_var and st.value.args \
-                and isinstance(st.value.args[0], ast.Call) and st.value.args[0].args:
-            passed = norm(st.value.args[0].args[0]) == flag_var
-            extra = [k.arg for k in st.value.args[0].keywords] + [norm(a) for a in st.value.args[0].args[1:]]
+    for c in calls_in(main):
+        if isinstance(c.func, ast.Attribute) and c.func.attr == "get" and norm(c.func.value) == cfg_var and c.args \
+                and isinstance(c.args[0], ast.Call) and c.args[0].args:
+            passed = norm(c.args[0].args[0]) == flag_var
+            extra = [k.arg for k in c.args[0].keywords] + [norm(a) for a in c.args[0].args[1:]]
             if extra:
                 passed = False
     rep.check(flag_var is not None and passed, rule, where, f"config_template({flag_var})",
